@@ -232,8 +232,8 @@ PLANS["C26"] = {
              "restore equals the reference, persisted memos that were verified in the revision of serialization are served without running "
              "their bodies, the rest of the history and a final sweep after a new revision equal the reference; non-trivial iff >=1 restored "
              "memo was served without execution and >=1 write followed the restore" + DIST),
-    "runs": [{"sub": "persist", "cfg": "persist", "quick": {"cases": 60000, "secs": 150}, "thorough": {"cases": 3000000, "secs": 900}}],
-    "min_counts": {"quick": {"round_trips": 20000, "restored_memos_served_without_execution": 20000, "writes_after_restore": 20000}},
+    "runs": [{"sub": "persist", "cfg": "persist", "quick": {"cases": 320000, "secs": 150}, "thorough": {"cases": 6000000, "secs": 900}}],
+    "min_counts": {"quick": {"round_trips": 100000, "restored_memos_served_without_execution": 100000, "writes_after_restore": 100000}},
     "assumptions": ASSUME_SINGLE + ["the persistence twin of the harness world uses a restricted expression subset (no specify, no accumulators, no cycles)"],
 }
 PLANS["C14"]["runs"].append(osrun(480, 12000))
